@@ -125,6 +125,11 @@ func (sp *G1Spec) candidates(path []string) []string {
 
 // replayWorld builds a fresh world and replays path; every step must be enabled.
 func replayWorld(sp *G1Spec, cfg Config, path []string) (*World, string) {
+	if cfg.BufPages == 0 {
+		// moss clears four buffers of CompactionBufferPages pages (2 MB each by default) in every compaction, which
+		// dominated the cost of a replay; the G1 alphabets write a few hundred bytes, so two pages behave the same.
+		cfg.BufPages = 2
+	}
 	w := NewWorld(cfg, sp.Alpha)
 	if w.infra != "" {
 		return w, w.infra
@@ -325,6 +330,11 @@ func runG1(prop, tier string) (*g1Stats, *G1Spec) {
 	sp := g1Specs[prop](tier)
 	realProp := sp.Prop
 	pool := NewPool()
+	if os.Getenv("VERIF_WORKERS") == "" && pool.N > 8 {
+		// measured in this sandbox: the replays are dominated by kernel work (mmap/munmap of tmpfs files) that does not
+		// scale beyond about five processes; eight workers complete a level faster than sixteen
+		pool.N = 8
+	}
 	if sp.Deadline > 0 {
 		sp.Deadline /= time.Duration(g1DeadlineShare)
 		pool.Deadline = time.Now().Add(sp.Deadline)
